@@ -231,11 +231,14 @@ theorem activate_exception_counterexample :
     createObject ⟨[], [], [], [], []⟩ ⟨['H'], ['h']⟩ ['f'] [] .activateThrows =
       (⟨[⟨⟨['H'], ['h']⟩, true, false, ['f']⟩], [⟨['H'], ['h']⟩], [], [], []⟩, .fail) := by decide
 
-/-- A successful delete removes the object, its item and (for an `_api` object) its file. -/
+/-- A successful delete removes the object, its item and (for an `_api` object) its file, and the
+    object is no longer resolved through its host (F-C17f, fixed by edf9289: nothing can be created for
+    a deleted service any more). -/
 theorem delete_removes_object_and_file (st : St) (k : Key) (cascade : Bool) (o : Obj)
     (ho : st.find k = some o) (hok : (deleteObject st k cascade).2 = .ok) :
     k ∉ (deleteObject st k cascade).1.keys ∧ k ∉ (deleteObject st k cascade).1.items ∧
-      o.file ∉ (deleteObject st k cascade).1.files := by
+      o.file ∉ (deleteObject st k cascade).1.files ∧
+      (deleteObject st k cascade).1.resolvesService k = false := by
   have hkey : o.key = k := by
     have := List.find?_some ho
     simpa using this
@@ -243,35 +246,34 @@ theorem delete_removes_object_and_file (st : St) (k : Key) (cascade : Bool) (o :
   rw [ho] at hok ⊢
   by_cases hapi : o.api = true
   · simp only [hapi, Bool.not_true, Bool.false_eq_true, if_false] at hok ⊢
-    by_cases hcy : (cascade && cascadeCycle st k) = true
-    · simp [hcy] at hok
-    · simp only [hcy, Bool.false_eq_true, ↓reduceIte] at hok ⊢
-      cases hf : st.objs.length with
-      | zero => simp [deleteHelper, removeObj, St.keys, rmFile, hapi, hkey]
-      | succ f =>
-        rw [hf] at hok
-        simp only [deleteHelper] at hok ⊢
-        split
-        · rename_i hc; simp [hc] at hok
-        · simp [removeObj, St.keys, rmFile, hapi, hkey]
+    simp only [deleteHelper, List.contains_nil, Bool.false_eq_true, if_false] at hok ⊢
+    split
+    · rename_i hc; simp [hc] at hok
+    · simp [removeObj, St.keys, St.resolvesService, rmFile, hapi, hkey]
   · simp [hapi] at hok
 
-/-- F-C17f: a deleted Service is still resolved through its host (no caller of `Host::RemoveService`), so
-    objects can still be created for it.  (With the repair `removeObj` would erase the entry and
-    `resolvesService` would be false after every successful delete.) -/
-theorem deleted_service_still_resolvable_counterexample :
+/-- Regression for F-C17f (fixed by edf9289): a created and then deleted Service is not resolvable through
+    its host any more.  (General statement: last conjunct of `delete_removes_object_and_file`.) -/
+theorem deleted_service_unresolvable_regression :
     let k : Key := ⟨tyService, ['h', '!', 's']⟩
     let st1 := (createObject ⟨[], [], [], [], []⟩ k ['f'] [] .none).1
-    (deleteObject st1 k false).2 = .ok ∧ (deleteObject st1 k false).1.has k = false ∧
-      (deleteObject st1 k false).1.resolvesService k = true := by decide
+    st1.resolvesService k = true ∧ (deleteObject st1 k false).2 = .ok ∧
+      (deleteObject st1 k false).1.resolvesService k = false := by decide
 
-/-- F-C17g: a cascading delete that meets a dependency cycle (here: an object that depends on itself,
-    e.g. a TimePeriod whose `includes` names itself — such an object CAN be created) does not return:
-    `DeleteObjectHelper` visits the dependents before it deactivates the object. -/
-theorem cyclic_cascade_delete_counterexample :
+/-- Regression for F-C17g (fixed by 6a109cb): an object that depends on itself (a TimePeriod whose
+    `includes` names itself can be created) is deleted by a cascading delete — each object is visited
+    once — and a non-cascading delete is refused like any delete of an object with dependents. -/
+theorem cyclic_cascade_delete_regression :
     let k : Key := ⟨['T'], ['t', 'p']⟩
+    let j : Key := ⟨['T'], ['t', 'q']⟩
     let st1 := (createObject ⟨[], [], [], [], []⟩ k ['f'] [k] .none).1
-    st1.has k = true ∧ deleteObject st1 k true = (st1, .threw) ∧ (deleteObject st1 k false).2 = .fail := by decide
+    -- a two-cycle k ↔ j
+    let st2 := (createObject (createObject ⟨[], [], [], [], []⟩ k ['f'] [] .none).1 j ['g'] [k] .none).1
+    let st3 : St := { st2 with deps := (k, j) :: st2.deps }
+    (deleteObject st1 k true).2 = .ok ∧ (deleteObject st1 k true).1.keys = [] ∧ (deleteObject st1 k true).1.files = [] ∧
+      deleteObject st1 k false = (st1, .fail) ∧
+      (deleteObject st3 k true).2 = .ok ∧ (deleteObject st3 k true).1.keys = [] ∧ (deleteObject st3 k true).1.files = [] := by
+  decide
 
 /-- Objects not created through the API are refused and nothing changes. -/
 theorem refuse_non_api (st : St) (k : Key) (cascade : Bool) (o : Obj)
